@@ -137,6 +137,12 @@ def clampLvl (ns : List (Node K V)) : Nat → Nat
   | 0 => 0
   | l + 1 => if ns.any (·.lvl = l) then l + 1 else clampLvl ns l
 
+/-- the node after `lower` exists and has a free slot (the "add to upper" test of `_lx_addkv`) -/
+def upperFree (post : List (Node K V)) : Bool :=
+  match post with
+  | u :: _ => decide (u.recs.length < cap)
+  | [] => false
+
 inductive PutOut where
   | ok | exists_
 deriving Repr, BEq, DecidableEq
@@ -169,7 +175,7 @@ def put (d : Db K V) (k : K) (v : V) (noOverwrite : Bool) (lvlReq : Nat) : Db K 
         if noOverwrite then (d, .exists_, old)
         else ({ d with nodes := pre ++ { lower with recs := lower.recs.set idx (k, v) } :: post }, .ok, old)
       else if lower.recs.length ≥ cap then
-        let uadd : Bool := decide (idx ≥ cap) && (match post with | u :: _ => decide (u.recs.length < cap) | [] => false)
+        let uadd : Bool := decide (idx ≥ cap) && upperFree post
         if uadd then
           match post with
           | u :: rest =>
